@@ -90,6 +90,15 @@ pub fn mix(a: u64, b: u64) -> u64 {
     k
 }
 
+pub fn hash_str(s: &str) -> u64 {
+    let mut h = 0xcbf2_9ce4_8422_2325u64;
+    for b in s.bytes() {
+        h ^= b as u64;
+        h = h.wrapping_mul(0x100_0000_01b3);
+    }
+    mix(h, s.len() as u64)
+}
+
 static LAST_PANIC: Mutex<Option<String>> = Mutex::new(None);
 static CUR_CASE: AtomicU64 = AtomicU64::new(u64::MAX);
 static CUR_START_MS: AtomicU64 = AtomicU64::new(0);
